@@ -434,6 +434,8 @@ def shared(ctx):
     # ERG enters circulation only through DoscMint, bounded by the reward formula evaluated against the previous block's speed (C18.R1/R2/R5)
     from rules.props import c18
     core.import_rules(ctx, [c18.r1_gate_chain, c18.r2_reward_bound, c18.r5_speed_formula], "X18")
+    from rules.props import c06
+    core.import_rules(ctx, [c06.r5_activation_table], "X06")          # the SYM subsidy is minted from TIP-909 on, split by TIP-909a
 
 
 RULES = [r1_gate_coverage, r2_exemption_table, r3_equality, r4_input_sums, r5_issuance_confinement, r6_floor, r7a, r8_subsidy_peg, r9_totals_fit, shared]
